@@ -61,6 +61,13 @@ CLAIMS = {
         note="Sequential ownership only: exclusivity of a region obtained from the pool (sync.Pool) and the behaviour of mcache are trusted extern contracts; 'never read or written again after recycling' is proved through the invariants (every reference the object keeps is to a non-freed region) rather than by a check on every memory access. "
              "ReaderSkipDecoder: Next returns exactly the value's bytes in its own pooled buffer, growSlow copies before it recycles the old buffer and only ever frees its own live pool region; that a result stays valid only until the next Next is the documented contract and is not a proved lifetime property. " + TRUST,
         design="5 C09"),
+    "C07": dict(
+        text="Proof for the read side, relative to the table as it is: StrMap.Get (generic, verified once for every value type) never fails on any table whose stored indices are in range, answers absent on an empty or never loaded map (D6 fixed), "
+             "and returns exactly what a scan of the slot run finds - present iff some item of the run starting at hashtable[hash(s) % slots] has a key equal to s, with the value of the first such item; Str2Str.Get is that answer with the value fetched from the string store "
+             "(a key whose value is the empty string is present); Len and Item; StrStore.Get returns the stored bytes without copying; a Str2Str load with mismatching slice lengths is an error and touches nothing (frame).",
+        note="NOT proved: that LoadFromSlice / LoadFromMap / makeHashtable build a table in which every loaded key lies in its slot run (they use sort.Sort and floating point arithmetic, outside the verifier's subset; their frames are trusted contracts), "
+             "hence 'every loaded key returns its value' and reload behaviour are not decided - only that Get cannot find anything that is not in the table and cannot miss anything in the run. maphash.String is an uninterpreted deterministic function of the string (the seed is fixed per map). " + TRUST,
+        design="8.2 C07"),
     "C08": dict(
         text="Proof: the buffer skipper agrees with the grammar in both directions: success iff the grammar says a complete well-formed value is present, with the exact extent; "
              "truncation / unknown type, negative size and exhausted nesting budget (64) each yield an error; recursion is bounded (decreases maxdepth).",
